@@ -575,6 +575,69 @@ func wrapAroundLengths() []c06Placed {
 	return r
 }
 
+// promisedEntries: a map (or array) head that ANNOUNCES many entries - or is
+// of indefinite length - followed by only a few real ones, whose labels are of
+// every kind (integer known / unknown to the destination, negative, text, byte
+// string, float, simple, array, tagged): the announced count must not turn
+// into that many iterations, allocations or re-reads, whatever the decoder
+// does with an entry it has no use for.
+func promisedEntries() []c06Placed {
+	labels := [][]byte{{0x00}, {0x01}, {0x18, 0x63}, {0x19, 0x01, 0x09}, {0x3a, 0x00, 0x01, 0x24, 0xf7}, {0x20}, {0x61, 0x61}, {0x60}, {0x65, 'b', 'u', 'i', 'l', 'd'},
+		{0x41, 0x01}, {0x40}, {0xf9, 0x3c, 0x00}, {0xf4}, {0xf6}, {0xf7}, {0xe0}, {0x80}, {0x81, 0x00}, {0xa0}, {0xc1, 0x00}, {0xd8, 0x18, 0x41, 0x00}}
+	values := [][]byte{{0x00}, {0x61, 0x78}, {0x41, 0x00}, {0xf6}, {0x80}, {0xa0}}
+	counts := []struct {
+		ai  int
+		val uint64
+	}{{24, 0xff}, {25, 1<<16 - 1}, {26, 1 << 24}, {26, 1<<32 - 1}, {27, 1 << 32}, {27, 1<<63 - 1}, {27, 1<<64 - 1}}
+	var r []c06Placed
+	for li, l := range labels {
+		for vi, v := range values {
+			if vi > 1 && li%3 != 0 {
+				continue
+			}
+			entry := append(append([]byte{}, l...), v...)
+			for n := 1; n <= 3; n++ {
+				var body []byte
+				for i := 0; i < n; i++ {
+					body = append(body, entry...)
+					if i == 0 && n > 1 {
+						body = append(body, 0x02, 0x03) // a known-looking entry in between
+					}
+				}
+				desc := fmt.Sprintf("label=%x/value=%x/x%d", l, v, n)
+				for _, c := range counts {
+					head := append([]byte{byte(5<<5 | c.ai)}, beUint(c.val, 1<<(c.ai-24))...)
+					doc := append(append([]byte{}, head...), body...)
+					r = append(r, c06Placed{"enc-cbor", fmt.Sprintf("map-announcing-%d/%s", c.val, desc), doc}, c06Placed{"cbor", fmt.Sprintf("map-announcing-%d/%s", c.val, desc), doc})
+				}
+				for _, form := range []struct {
+					name string
+					doc  []byte
+				}{
+					{"indefinite-map", append(append([]byte{0xbf}, body...), 0xff)},
+					{"indefinite-map-no-break", append([]byte{0xbf}, body...)},
+					{"tagged-indefinite-map", append(append([]byte{0xc6, 0xbf}, body...), 0xff)},
+					{"exact-map", append([]byte{byte(0xa0 + len(body)*0 + n + map[bool]int{true: 1}[n > 1])}, body...)},
+				} {
+					r = append(r, c06Placed{"enc-cbor", form.name + "/" + desc, form.doc}, c06Placed{"cbor", form.name + "/" + desc, form.doc})
+				}
+			}
+		}
+	}
+	// ... and the same inside a claims token (a component map, an unknown
+	// key's value) and as COSE payload / header
+	for _, l := range [][]byte{{0x61, 0x61}, {0x18, 0x63}, {0xf4}, {0x41, 0x01}} {
+		for _, c := range counts {
+			head := append([]byte{byte(5<<5 | c.ai)}, beUint(c.val, 1<<(c.ai-24))...)
+			raw := append(append(append([]byte{}, head...), l...), 0x00)
+			r = append(r, placeCBORLight(raw, fmt.Sprintf("map-announcing-%d/label=%x", c.val, l))...)
+		}
+		raw := append(append([]byte{0xbf}, l...), 0x00, 0xff)
+		r = append(r, placeCBORLight(raw, fmt.Sprintf("indefinite-map/label=%x", l))...)
+	}
+	return r
+}
+
 // memberPairDocs: claims documents in which two top-level members are changed
 // at once - one to null / an empty container, one to a value of a wrong type
 // (a decode that fails in one member after another one was reset must still
@@ -1128,7 +1191,7 @@ func c06Report(t testing.TB, pl *c06Pool, v string, in c06In) {
 func TestC06_Bombs(t *testing.T) {
 	st := NewStats("C06", "TestC06_Bombs", "enumeration, measured in an address-space-limited single-goroutine worker process (TotalAlloc delta and wall time per input): header bombs = every major type 2..6 x additional-info 24..27 x declared length in {0x80,0xff,2^8,2^16-1,2^16,2^24,2^31,2^32-1,2^32,2^63,2^64-1} x 0..16 following bytes, placed at top level and at every structural position of a valid token of both profiles (5 claim values, a component field, an unknown key's value, COSE payload / protected / unprotected / signature / tag content / protected-header content / unprotected-header value); declared lengths that wrap around when converted or added (2^64-k for k=1..16 and others, 2^63+-k, 2^32-k, 2^31+-k) as value / key / element of definite and indefinite-length containers; claims documents with two members changed at once (one null / empty, one of a wrong type); documents with thousands of members that take an error path of the dispatching decoders (unregistered / double / wrong-typed profile, wrong-typed claim); JSON numbers with exponents up to 10^9 and 60000-digit spellings in every numeric member; what JSON does not have (line / block comments terminated or running into the end of the input, byte order marks, trailing commas, NaN ...) before, inside and after the claims documents and alone; every JSON array respelt as an object keyed by (huge / negative / exponent) positions and objects with such numbers as member names; nesting of arrays, maps, tags, indefinite containers to depth 8..32000 and JSON arrays/objects to depth 8..65536 (closed and unclosed, top level and inside claims); 4 KiB..60 KiB strings, 1000..16000-key maps (distinct and duplicate keys), 700-component and 60000-null component lists; every 1- and 2-byte input that starts with a tag head and valid documents wrapped 1..3 deep in 42 tag numbers of every head width (termination of the hand-written tag skipping). Every input goes to every entry point of its family (COSE, claims CBOR incl. per-type unmarshal and extension types, claims JSON, populate helpers). Violation: a call allocates more than 1 MiB + 1 KiB per input byte, or takes > 5 s (re-measured in 3 fresh processes), or the worker dies with an out-of-memory fatal error. Non-trivial = declares more data than it carries, or nests >= 8 deep, or >= 4 KiB; distinct = family + input")
 	st.Exhaustive = true
-	st.Require = []string{"bomb", "wrap-around", "member-pair", "json-number", "many-members-error-path", "json-near-syntax", "json-numbers-as-names", "nesting", "big", "tag-wrapped", "error-path", "family=cbor", "family=cose", "family=json", "family=enc-cbor", "family=enc-json"}
+	st.Require = []string{"bomb", "wrap-around", "promised-entries", "member-pair", "json-number", "many-members-error-path", "json-near-syntax", "json-numbers-as-names", "nesting", "big", "tag-wrapped", "error-path", "family=cbor", "family=cose", "family=json", "family=enc-cbor", "family=enc-json"}
 	defer st.Flush(t)
 	pl := &c06Pool{}
 	defer pl.drop()
@@ -1150,6 +1213,9 @@ func TestC06_Bombs(t *testing.T) {
 	}
 	for _, p := range wrapAroundLengths() {
 		run(p, "wrap-around")
+	}
+	for _, p := range promisedEntries() {
+		run(p, "promised-entries")
 	}
 	for _, p := range memberPairDocs() {
 		run(p, "member-pair")
